@@ -403,6 +403,115 @@ Section RestFullMoist.
   Qed.
 End RestFullMoist.
 
+(** ** (1'') uniform humidity as a MODAL hypothesis: if tracer 0 is q0 times the (0,0)-only spectrum v00 on the coefficient
+    range and that spectrum synthesises to the constant one (H_one, the table hypothesis of C04), then the nodal humidity is q0
+    and its nodal cos-lat gradient vanishes: H_q_uniform and H_gradq_zero are DERIVED. *)
+Section UniformHumidity.
+  Context {F : Type} {o : Ops F} {Fc : FieldC o}.
+  Add Field FFuh : (field_c : FieldTh o).
+  Variable g : @HGrid F.
+  Variables v00 q0 : F.
+  Hypothesis H_one : forall i j, (i < hI g)%nat -> (j < hJ g)%nat -> to_nodal g (cur (onem00 v00)) i j = 1.
+  Variable x : nat -> nat -> F.
+  Hypothesis Hx : forall a l, (a < hR g)%nat -> (l < hL g)%nat -> x a l = q0 * onem00 v00 (a, l).
+  Let xo : nat -> nat -> F := fun a l => q0 * onem00 v00 (a, l).
+
+  Lemma xo_row a l : xo (S a) l = 0.
+  Proof. unfold xo, onem00. cbn [fst snd Nat.eqb andb]. ring. Qed.
+  Lemma xo_col a l : xo a (S l) = 0.
+  Proof. unfold xo, onem00. cbn [fst snd Nat.eqb]. rewrite Bool.andb_false_r. ring. Qed.
+
+  Lemma uniform_nodal i j : (i < hI g)%nat -> (j < hJ g)%nat -> to_nodal g x i j = q0.
+  Proof.
+    intros Hi Hj. unfold to_nodal.
+    rewrite (synth_ext (hR g) (hL g) (hJ g) (hf g) (hp g) x (fun a l => q0 * cur (onem00 v00) a l + (fun _ _ => 0) a l) i j Hj)
+      by (intros a l Ha Hl; rewrite (Hx a l Ha Hl); unfold cur; ring).
+    rewrite (synth_linear (hR g) (hL g) (hJ g) (hf g) (hp g) q0 (cur (onem00 v00)) (fun _ _ => 0) i j Hj).
+    rewrite synth_zero. pose proof (H_one i j Hi Hj) as E. unfold to_nodal in E. rewrite E. ring.
+  Qed.
+
+  Lemma dlon_uniform a l : (a < hR g)%nat -> dlon_ref (hR g) xo a l = 0.
+  Proof.
+    intros Ha. unfold dlon_ref, shift_rows. unfold dref_down_off, dref_up_off.
+    rewrite shift1_m1, (shift1_p1 (hR g) (fun i' => xo i' l) a Ha). unfold dref_sel.
+    rewrite xo_row.
+    destruct a as [|[|a]].
+    - cbn [Nat.eqb]. destruct (dref_cond 0); destruct (Nat.ltb 1 (hR g)); ring.
+    - change (dref_cond 1) with true. cbv iota. destruct (Nat.ltb 2 (hR g)); ring.
+    - cbn [Nat.eqb]. replace (S (S a) - 1)%nat with (S a) by lia. rewrite xo_row.
+      destruct (dref_cond (S (S a))); destruct (Nat.ltb (S (S (S a))) (hR g)); ring.
+  Qed.
+
+  Lemma D1_uniform a l : (l < hL g)%nat -> D1 (hL g) (hL g) (ha g) (hb g) xo a l = 0.
+  Proof.
+    intros Hl. unfold D1, shift_cols. unfold d1_om, d1_op.
+    rewrite shift1_m1, (shift1_p1 (hL g) _ l Hl). rewrite xo_col.
+    destruct l as [|[|l]].
+    - cbn [Nat.eqb]. destruct (Nat.ltb 1 (hL g)); ring.
+    - cbn [Nat.eqb]. change (1 - 1)%nat with 0%nat. unfold d1_wp, laxis.
+      destruct (Nat.ltb 0 (hL g)); cbn [lit]; destruct (Nat.ltb 2 (hL g)); ring.
+    - cbn [Nat.eqb]. replace (S (S l) - 1)%nat with (S l) by lia. rewrite xo_col.
+      destruct (Nat.ltb (S (S (S l))) (hL g)); ring.
+  Qed.
+
+  Lemma uniform_grad_nodal i j : (j < hJ g)%nat ->
+    to_nodal g (fst (gradm g x)) i j = 0 /\ to_nodal g (snd (gradm g x)) i j = 0.
+  Proof.
+    intros Hj. split; apply to_nodal_zero; try assumption; intros a l Ha Hl;
+      unfold gradm, cos_lat_grad, clip_if; cbn [fst snd].
+    - change (d_dlon false (hR g) x a l) with (dlon_ref (hR g) x a l).
+      rewrite (dlon_ref_ext_range (hR g) x xo a l Ha) by (intros a' Ha'; now apply Hx).
+      rewrite (dlon_uniform a l Ha), fdiv_mul. ring.
+    - rewrite (D1_ext_range (hL g) (hL g) (ha g) (hb g) x xo a l Hl) by (intros l' Hl'; now apply Hx).
+      rewrite (D1_uniform a l Hl), fdiv_mul. ring.
+  Qed.
+End UniformHumidity.
+
+(** the moist rest-state theorem with the uniform humidity given as a MODAL array: H_q_uniform, H_gradq_zero replaced by H_one *)
+Section RestFullMoistModal.
+  Context {F : Type} {o : Ops F} {Fc : FieldC o}.
+  Variable g : @HGrid F.
+  Variable c : @PEcfg F.
+  Variable m : @Moist F.
+  Variables grav T0 cst v00 q0 : F.
+  Variable orog : nat -> nat -> F.
+  Variable s : @State F.
+  Hypothesis RT0_nz : cR c * T0 <> 0.
+  Hypothesis R_nz : cR c <> 0.
+  Hypothesis mf_nz : 1 + (mRv m / cR c - 1) * q0 <> 0.
+  Hypothesis Tref_iso : forall k, (k < cK c)%nat -> cTref c k = T0.
+  Hypothesis vort0 : forall k a l, (k < cK c)%nat -> (a < hR g)%nat -> (l < hL g)%nat -> s_vort s k a l = 0.
+  Hypothesis div0 : forall k a l, (k < cK c)%nat -> (a < hR g)%nat -> (l < hL g)%nat -> s_div s k a l = 0.
+  Hypothesis temp0 : forall k a l, (k < cK c)%nat -> (a < hR g)%nat -> (l < hL g)%nat -> s_temp s k a l = 0.
+  Hypothesis H_hydrostatic : forall a l, (a < hR g)%nat -> (l < hL g)%nat ->
+      s_lnps s a l = cst * onem00 v00 (a, l) - grav / (cR c * T0 * (1 + (mRv m / cR c - 1) * q0)) * orog a l.
+  Hypothesis has_humidity : s_tr s <> [].
+  Hypothesis Hq_modal : forall k a l, (k < cK c)%nat -> (a < hR g)%nat -> (l < hL g)%nat ->
+      q_modal s k a l = q0 * onem00 v00 (a, l).
+  Hypothesis H_one : forall i j, (i < hI g)%nat -> (j < hJ g)%nat -> to_nodal g (cur (onem00 v00)) i j = 1.
+  Hypothesis H_lap_one : forall a l, (a < hR g)%nat -> (l < hL g)%nat -> lap_c g (toM_c g (fun _ => 1)) (a, l) = 0.
+  Hypothesis H_lapn : forall a l, (a < hR g)%nat -> (l < hL g)%nat ->
+      clip_c g (toM_c g (lapn0 g s)) (a, l) = clip_c g (lap_c g (unc (s_lnps s))) (a, l).
+
+  Theorem whole_state_rest_isothermal_steady_moist_modal k a l :
+    (k < cK c)%nat -> (a < hR g)%nat -> (l < hL g)%nat ->
+    let E := explicit_terms_full_moist g false c m grav orog s in
+    let I := implicit_terms_full g c s in
+    s_vort E k a l + s_vort I k a l = 0 /\
+    s_temp E k a l + s_temp I k a l = 0 /\
+    s_lnps E a l + s_lnps I a l = 0 /\
+    s_div E k a l + s_div I k a l = grav / (1 + (mRv m / cR c - 1) * q0) * (lapm g orog a l - clipm g (lapm g orog) a l) /\
+    ((l < hL g - 1)%nat -> s_div E k a l + s_div I k a l = 0).
+  Proof.
+    intros Hk Ha Hl.
+    exact (whole_state_rest_isothermal_steady_moist g c m grav T0 cst v00 q0 orog s RT0_nz R_nz mf_nz Tref_iso vort0 div0 temp0
+             H_hydrostatic has_humidity
+             (fun k0 i j Hk0 Hi Hj => uniform_nodal g v00 q0 H_one (q_modal s k0) (fun a0 l0 => Hq_modal k0 a0 l0 Hk0) i j Hi Hj)
+             (fun k0 i j Hk0 Hi Hj => uniform_grad_nodal g v00 q0 H_one (q_modal s k0) (fun a0 l0 => Hq_modal k0 a0 l0 Hk0) i j Hj)
+             H_lap_one H_lapn k a l Hk Ha Hl).
+  Qed.
+End RestFullMoistModal.
+
 (** ** (3) the executed dry whole-state model refines the specification at the modal layer ([primeq_refines_spec] of
     Thm/PrimEqSpec.v instantiated at the concrete operators, for the EXECUTED explicit_terms_full + implicit_terms_full):
     the total vorticity / divergence tendency of every in-range coefficient is the clipped modal curl / div / laplacian of the
